@@ -128,6 +128,10 @@ def _temperature_cases(rng, tier):
         for a in (AMOUNTS if thorough else rng.sample(AMOUNTS, 4)):
             cases.append({'world': PRE, 'dm': rng.choice(W.MODES),
                           'op': {'o': 'conveq', 'x': ['q', _spec(rng, a), u], 'v': v}})
+        # quantity / unit of its own type goes through the converter too (seeded C02-g)
+        for a in (AMOUNTS if thorough else rng.sample(AMOUNTS, 2)):
+            cases.append({'world': PRE, 'dm': rng.choice(W.MODES),
+                          'op': {'o': 'divu', 'x': ['q', _spec(rng, a), u], 'v': v}})
     for u, w, v in itertools.product(TEMP, TEMP, TEMP):
         for a in (AMOUNTS if thorough else rng.sample(AMOUNTS, 3)):
             cases.append({'world': PRE, 'dm': rng.choice(W.MODES),
@@ -222,7 +226,7 @@ def _user_case(rng):
                 parts[rng.randrange(p)].append(_row(rng, a, b, _rat(rng), _rat(rng)))
         for p in parts:
             rng.shuffle(p) if not _has_dup(p) else None
-            tables.append({'cls': name, 'form': rng.choice(['map', 'list']), 'rows': p})
+            tables.append({'cls': name, 'form': rng.choice(['map', 'list', 'list', 'gen', 'zip']), 'rows': p})
         total = complete and not mixed
     elif mode in ('random', 'zero'):
         for _ in range(rng.choice([1, 1, 2, 3])):
@@ -232,7 +236,7 @@ def _user_case(rng):
                 a, b = rng.choice(pool), rng.choice(pool)
                 rows.append(_row(rng, a, b, _rat(rng, 0.5 if mode == 'zero' else 0.0),
                                  _rat(rng, 0.2)))
-            tables.append({'cls': name, 'form': rng.choice(['map', 'list']), 'rows': rows})
+            tables.append({'cls': name, 'form': rng.choice(['map', 'list', 'list', 'gen', 'zip']), 'rows': rows})
         if other and rng.random() < 0.5:
             tables.append({'cls': f"Tz{tag}", 'form': 'list',
                            'rows': [_row(rng, other[0], other[1], _rat(rng), _rat(rng))]})
@@ -262,10 +266,11 @@ def _user_case(rng):
                 a = -F(r0) / (F(r1) - F(r0))
         except Exception:       # noqa
             pass
-    o = rng.choice(['convert', 'convert', 'via', 'via', 'conveq', 'cmp', 'cmp', 'cmp', 'sorted'])
+    o = rng.choice(['convert', 'convert', 'via', 'via', 'conveq', 'cmp', 'cmp', 'cmp', 'sorted',
+                    'divu'])
     if o == 'sorted' and not total:
         o = 'cmp'
-    if o in ('convert', 'conveq'):
+    if o in ('convert', 'conveq', 'divu'):
         case['op'] = {'o': o, 'x': ['q', _spec(rng, a), u], 'v': v}
     elif o == 'via':
         w = rng.choice(syms)
@@ -407,6 +412,20 @@ def oracle(case, r):
             tag, direct = conv(case, views, a, u, op['v'])
             if tag not in ERR_OF and got != direct:
                 return f"{what} gave {got}, the direct conversion gives {direct}"
+        return None
+    if o == 'divu':
+        # quantity / unit of the same type = the amount converted to that unit (a number)
+        a, u = F(r['ops'][0]['amt']), op['x'][2]
+        tag, val = conv(case, views, a, u, op['v'])
+        if tag == 'zerodiv':
+            return None
+        if tag in ERR_OF:
+            want = 'EUnitConversion' if tag == 'noconv' else ERR_OF[tag]
+            return None if res['k'] == 'err' else \
+                f"{a} {u} / {op['v']}: no applicable converter ({tag}) but got {res}"
+        if res['k'] != 'num' or F(res['v']) != val:
+            return (f"{a} {u} / {op['v']}: expected the plain number {val} (the amount converted "
+                    f"to {op['v']}), got {res}")
         return None
     if o in CMPS:
         x, y = r['ops']
